@@ -38,14 +38,78 @@ def ns_full(ns, name):
 class Program:
     """source files + an independent account of what the preprocessor has to produce"""
 
-    def __init__(self, rng, w):
+    def __init__(self, rng, w, invalid=False):
         self.rng, self.w = rng, w
         self.small = w == 8
         self.macros = []
         self.top = []               # (file index, ns list, stmt)
         self.nfiles = 1 if self.small else rng.choice([1, 2, 2, 3])
         self.gcount = 0
+        self.route = None
         self.gen()
+        if invalid:
+            self.route = self.inject_duplicate()
+
+    def inject_duplicate(self):
+        """turn the (valid) program into one that declares some label twice, through a randomly chosen route"""
+        rng = self.rng
+        labelled = [t for t in self.top if t[2]['label'] is not None]
+        calls = [t for t in self.top if t[2]['kind'] == 'call' and t[2]['largs']]
+        with_lp = [m for m in self.macros if m.lparams]
+        inner = [m for m in self.macros if sum(1 for st in m.body if st['kind'] == 'call' and st['largs']) >= 2]
+        routes = []
+        if labelled:
+            routes += ['plain-twice', 'plain-twice-other-file']
+        if labelled and calls:
+            routes += ['plain+param', 'plain+param']
+        if len(calls) >= 2 or any(len(t[2]['largs']) >= 2 for t in calls):
+            routes += ['same-arg-twice', 'same-arg-twice']
+        if with_lp:
+            routes += ['rep-same-arg', 'param-then-plain']
+        if inner:
+            routes += ['nested-same-name']
+        if not routes:
+            return None
+        route = rng.choice(routes)
+        if route.startswith('plain-twice'):
+            fidx, ns, st = rng.choice(labelled)
+            f2 = fidx if route == 'plain-twice' else rng.randrange(self.nfiles)
+            new = {'kind': 'label', 'label': st['label'], 'src_label': st['src_label']}
+            self.top.insert(rng.randrange(1, len(self.top) + 1), (f2, ns, new))
+        elif route == 'plain+param':
+            _, _, st = rng.choice(labelled)
+            _, _, c = rng.choice(calls)
+            c['largs'][rng.randrange(len(c['largs']))] = st['label']
+        elif route == 'same-arg-twice':
+            two = [t for t in calls if len(t[2]['largs']) >= 2]
+            if two and (len(calls) < 2 or rng.random() < 0.4):
+                c = rng.choice(two)[2]
+                c['largs'][1] = c['largs'][0]
+            else:
+                a, b = rng.sample(calls, 2)
+                b[2]['largs'][rng.randrange(len(b[2]['largs']))] = rng.choice(a[2]['largs'])
+        elif route in ('rep-same-arg', 'param-then-plain'):
+            m = rng.choice(with_lp)
+            ns = rng.choice([[], [], ['a'], ['lib']])
+            slot = 1 + max([0] + [t[2]['slot'] + max(t[2].get('n', 1), 1) - 1 for t in self.top if t[2]['kind'] in ('call', 'rep')])
+            largs = [('G', self.fresh_global(ns if rng.random() < 0.3 else [])) for _ in m.lparams]
+            if route == 'rep-same-arg':
+                new = {'kind': 'rep', 'label': None, 'callee': m, 'slot': slot, 'n': rng.choice([2, 2, 3]), 'it': 'i', 'largs': largs}
+                self.top.insert(rng.randrange(1, len(self.top) + 1), (rng.randrange(self.nfiles), ns, new))
+            else:
+                new = {'kind': 'call', 'label': None, 'callee': m, 'slot': slot, 'largs': largs}
+                pos = rng.randrange(1, len(self.top) + 1)
+                f1 = rng.randrange(self.nfiles)
+                self.top.insert(pos, (f1, ns, new))
+                g = rng.choice(largs)
+                gns, gbase = g[1].split('.')[:-1], g[1].split('.')[-1]
+                later = {'kind': 'label', 'label': g, 'src_label': gbase}
+                self.top.append((rng.randrange(f1, self.nfiles), gns, later))
+        elif route == 'nested-same-name':
+            m = rng.choice(inner)
+            cs = [st for st in m.body if st['kind'] == 'call' and st['largs']]
+            cs[1]['largs'][0] = cs[0]['largs'][0]
+        return route
 
     # statements: dict(kind=..., label=name or None, ...)
     def gen_body(self, m, idx, depth_left):
@@ -208,7 +272,8 @@ class Program:
                 cname = '.' + callee.base                      # relative form inside the same namespace
             idarg = f'id*{self.F}+{st["slot"]}' if in_macro else f'{st["slot"]}'
             if k == 'rep':
-                return lab + f'rep({st["n"]}, {st["it"]}) {cname} {idarg}+{st["it"]}'
+                extra = ''.join(', ' + la[1] for la in st.get('largs', []))
+                return lab + f'rep({st["n"]}, {st["it"]}) {cname} {idarg}+{st["it"]}{extra}'
             args = [idarg]
             for la in st['largs']:
                 args.append(la[1])
@@ -331,9 +396,12 @@ class Expander:
                 comp = (fshort, line, None, callee.full, callee.nargs)
                 self.expand(callee, path + (comp,), idv * p.F + st['slot'], b2)
             else:
+                b2 = {}
+                for pname, la in zip(callee.lparams, st.get('largs', [])):
+                    b2[pname] = ('G', la[1]) if la[0] == 'G' else (('L', path, la[1]) if la[0] == 'L' else binding[la[1]])
                 for i in range(st['n']):
                     comp = (fshort, line, i, callee.full, callee.nargs)
-                    self.expand(callee, path + (comp,), idv * p.F + st['slot'] + i, {})
+                    self.expand(callee, path + (comp,), idv * p.F + st['slot'] + i, b2)
         elif k == 'pad':
             self.pending = []
             ops = (-self.cur // (2 * w)) % st['n']
@@ -456,10 +524,24 @@ def bcase_term(table, q):
 WFLIP_RE = re.compile(r'^:wflips:\d+$')
 
 
-def gen_case(rng):
-    for _ in range(50):
+def dup_expected(events):
+    """does some name get declared twice (structured names are equal iff their rendered names are: C16_unique_names)"""
+    seen = set()
+    for e in events:
+        n = e[1] if e[0] == 'decl' else ('G', e[1])
+        if n in seen:
+            return True
+        seen.add(n)
+    return False
+
+
+def gen_case(rng, invalid=False):
+    """a generated program; invalid=True: one that declares a label twice through some route (must be REJECTED)"""
+    for _ in range(200):
         w = rng.choice([8, 16, 16, 16, 32, 32, 32, 64, 64, 64])
-        prog = Program(rng, w)
+        prog = Program(rng, w, invalid=invalid)
+        if invalid and prog.route is None:
+            continue
         prog.emit()
         if prog.too_big:
             continue
@@ -468,10 +550,15 @@ def gen_case(rng):
             continue
         if ex.max_addr >= (1 << (w - 1)):
             continue
+        dup = dup_expected(ex.events)
+        if invalid and not dup:
+            continue        # the mutated place is never expanded: still a valid program, not what is wanted here
         nlab = sum(1 for e in ex.events if e[0] == 'decl')
         return {'kind': 'asm', 'w': w, 'version': rng.choice([0, 1, 2, 3]), 'files': prog.files,
                 'events': ex.events, 'starts': ex.starts, 'markers': {str(k): v[0] for k, v in ex.markers.items()},
-                'nlabels': nlab, 'depth': max([len(p) for p, _ in ex.starts]), 'nreps': sum(1 for p, _ in ex.starts if p and p[-1][2] is not None)}
+                'nlabels': nlab, 'depth': max([len(p) for p, _ in ex.starts]),
+                'nreps': sum(1 for p, _ in ex.starts if p and p[-1][2] is not None),
+                'dup_expected': dup, 'route': prog.route if invalid else ('extern-twice' if dup else None)}
     raise RuntimeError('generator could not produce a fitting program')
 
 
@@ -482,12 +569,35 @@ def directed_cases():
 
     def mk(w, text, events, starts, tag):
         out.append({'kind': 'asm', 'w': w, 'version': 1, 'files': [['f1', text]], 'events': events, 'starts': starts,
-                    'markers': {}, 'nlabels': len(events), 'depth': 0, 'nreps': 0, 'tag': tag})
+                    'markers': {}, 'nlabels': len(events), 'depth': 0, 'nreps': 0, 'tag': tag,
+                    'dup_expected': dup_expected(events), 'route': tag if tag.startswith('dup') else None})
     T = 1 << 15
     mk(16, f'a: {T + 1};\na: {T + 2};\n', [['decl', ('G', 'a'), 0, T + 1], ['decl', ('G', 'a'), 32, T + 2]], [((), 0)], 'dup-global')
     mk(16, f'def m id > e {{\n  e: id+{T};\n}}\nm 1\nm 2\n',
        [['decl', ('G', 'e'), 0, T + 1], ['decl', ('G', 'e'), 32, T + 2]],
        [((), 0), ((('f1', 4, None, 'm', 1),), 0), ((('f1', 5, None, 'm', 1),), 32)], 'dup-extern')
+    # duplicates through a macro parameter (the argument is a caller-chosen global name) and their valid controls
+    def at(line):
+        return (('f1', line, None, 'mark', 1),)
+    mk(16, f'def mark lbl {{\n  lbl: {T + 1};\n}}\nmark a\nmark a\n',
+       [['decl', ('G', 'a'), 0, T + 1], ['decl', ('G', 'a'), 32, T + 1]], [((), 0), (at(4), 0), (at(5), 32)], 'dup-same-arg-twice')
+    mk(16, f'def mark lbl {{\n  lbl:\n}}\nspot: {T + 1};\nmark spot\n',
+       [['decl', ('G', 'spot'), 0, T + 1], ['decl', ('G', 'spot'), 32, None]], [((), 0), (at(5), 32)], 'dup-plain-then-param')
+    mk(16, f'def mark lbl {{\n  lbl:\n}}\n{T + 1};\nmark spot\nspot: {T + 2};\n',
+       [['decl', ('G', 'spot'), 32, T + 2], ['decl', ('G', 'spot'), 32, T + 2]], [((), 0), (at(5), 32)], 'dup-param-then-plain')
+    mk(16, f'def mark lbl {{\n  lbl: {T + 1};\n}}\nns a {{\n  x: {T + 2};\n}}\nmark a.x\n',
+       [['decl', ('G', 'a.x'), 0, T + 2], ['decl', ('G', 'a.x'), 32, T + 1]], [((), 0), (at(7), 32)], 'dup-namespace')
+    mk(16, f'def mark lbl {{\n  lbl: {T + 1};\n}}\nrep(2, i) mark q\n',
+       [['decl', ('G', 'q'), 0, T + 1], ['decl', ('G', 'q'), 32, T + 1]],
+       [((), 0), ((('f1', 4, 0, 'mark', 1),), 0), ((('f1', 4, 1, 'mark', 1),), 32)], 'dup-rep')
+    po = ('f1', 8, None, 'outer', 1)
+    mk(16, f'def mark lbl {{\n  lbl: {T + 1};\n}}\ndef outer id @ x {{\n  mark x\n  mark x\n}}\nouter 1\n',
+       [['decl', ('L', (po,), 'x'), 0, T + 1], ['decl', ('L', (po,), 'x'), 32, T + 1]],
+       [((), 0), ((po,), 0), ((po, ('f1', 5, None, 'mark', 1)), 0), ((po, ('f1', 6, None, 'mark', 1)), 32)], 'dup-local-passed-twice')
+    mk(16, f'def mark lbl {{\n  lbl: {T + 1};\n}}\nmark a\nmark b\n',
+       [['decl', ('G', 'a'), 0, T + 1], ['decl', ('G', 'b'), 32, T + 1]], [((), 0), (at(4), 0), (at(5), 32)], 'control-distinct-args')
+    mk(16, f'def mark lbl {{\n  lbl:\n}}\nspot: {T + 1};\nmark spot2\n',
+       [['decl', ('G', 'spot'), 0, T + 1], ['decl', ('G', 'spot2'), 32, None]], [((), 0), (at(5), 32)], 'control-plain-and-param')
     mk(16, f'def m id {{\n  id+{T};\n}}\ndef n id {{\n  m id\n}}\nn 1\nn 2\n', [],
        [((), 0), ((('f1', 7, None, 'n', 1),), 0), ((('f1', 7, None, 'n', 1), ('f1', 5, None, 'm', 1)), 0),
         ((('f1', 8, None, 'n', 1),), 32), ((('f1', 8, None, 'n', 1), ('f1', 5, None, 'm', 1)), 32)], 'nested-starts')
@@ -583,6 +693,15 @@ def evaluate_asm(ctx, cases, results, name='c16'):
                           f'the assembler rejected a generated program of the supported class: {r["error"][:300]}',
                           {'job': strip_job(c), 'observed': r, 'how': how()})
             continue
+        if c.get('dup_expected'):
+            ctx.hist('duplicate_route', f'{c.get("route")}:{"rejected" if r["outcome"] == 1 else "outcome" + str(r["outcome"])}')
+            if r['outcome'] == 0:
+                ctx.violation({'kind': 'duplicate-label-accepted'},
+                              f'a program that declares a label twice (route {c.get("route")}) was assembled instead of being rejected '
+                              f'with "label declared twice"; the table has one entry for two statements: {r["table"][:10]}',
+                              {'job': strip_job(c), 'expected_events': c['events'], 'observed_table': r['table'],
+                               'required': 'FlipJumpPreprocessorException "label declared twice" (model: build = BDup)', 'how': how()})
+                continue
         tbl = r.get('table', [])
         r['table_nowflips'] = [[k, v] for k, v in tbl if not WFLIP_RE.match(k)]
         # ':wflips:' entries are appended after everything else
@@ -662,13 +781,14 @@ def evaluate_queries(ctx, cases, results, name='c16_bp'):
         return
     agree, spec = eval_both(ctx, name + '_iso', '', terms, 'check_bcase', 'spec_bcase', shard=10)
     nrep = 0
-    for (c, r, q), a, s in zip(tmeta, agree, spec):
+    order = sorted(range(len(tmeta)), key=lambda i: (spec[i] is not False, i))      # specification failures first
+    for (c, r, q), a, s in [(tmeta[i], agree[i], spec[i]) for i in order]:
         if s is False:
             nrep += 1
             if nrep <= 3:
                 ctx.violation({'kind': 'breakpoints-domain'},
-                              f'BreakpointHandler.breakpoints {q["bps"][:8]} is not exactly addresses + exact labels + labels containing a '
-                              f'substring for A={q["A"]} L={q["L"]} S={q["S"]}',
+                              f'BreakpointHandler.breakpoints {q["bps"][:8]} (warnings {q["warnings"]}) is not exactly addresses + exact labels + labels '
+                              f'containing a substring, with a warning exactly for the unknown exact labels, for A={q["A"]} L={q["L"]} S={q["S"]}',
                               {'job': strip_job(c) | {'queries': [{'A': q['A'], 'L': q['L'], 'S': q['S']}]}, 'observed': q,
                                'table': r['table'], 'how': how()})
         elif a is False:
@@ -683,7 +803,8 @@ def evaluate_queries(ctx, cases, results, name='c16_bp'):
 def run(ctx):
     fw.static_proofs(ctx, ['Properties/C16.v'])
     rng = ctx.rng
-    cases = directed_cases() + [gen_case(rng) for _ in range(ctx.n(700, 8000))]
+    cases = (directed_cases() + [gen_case(rng) for _ in range(ctx.n(700, 8000))] +
+             [gen_case(rng, invalid=True) for _ in range(ctx.n(160, 2000))])
     res1 = run_jobs(ctx, [strip_job(c) for c in cases])
     # second pass: breakpoint queries are built from the observed tables
     jobs2 = []
@@ -716,8 +837,11 @@ def run(ctx):
         'rep 0..3, pad, segment, reserve; w in 8/16/32/64; every op carries a unique flip word so its address is read off the image) '
         'assembled by the real assembler with a debugging file: load_debugging_labels (content and order) vs Model/Labels.v, '
         'specification on the observed table+image; 4 random address/exact/substring breakpoint queries per program through '
-        'get_breakpoint_handler vs model and domain specification; save/load on hostile and generated tables; 5 directed shapes '
-        '(duplicates, segment-label collision in both orders, nested starts). distinct = distinct sources / queries / tables; '
+        'get_breakpoint_handler vs model and domain specification; save/load on hostile and generated tables; an INVALID family: '
+        'programs declaring a label twice through every route (plain twice / other file, plain + macro parameter in both orders, '
+        'two expansions or a rep with the same argument, namespaces, the same name passed down twice inside a macro, extern in a '
+        'macro expanded twice) which must be rejected with "label declared twice" (model: BDup); directed shapes with valid '
+        'controls (duplicates, segment-label collision in both orders, nested starts). distinct = distinct sources / queries / tables; '
         'non-trivial = >= 2 declared labels / >= 1 resolved breakpoint / non-empty table')
     ctx.assumptions += [
         'json/lzma are external: C16_roundtrip is proved under their round-trip laws (section hypotheses), exercised by the campaign',
